@@ -77,7 +77,22 @@ CHECKS = {
              "sequence must be a permutation of the graph's nodes in which every edge goes forward, loops nest as brackets with the "
              "update innermost, and nothing sits above a loop it transitively depends on (shipped accelerator specs also with metrics nodes).",
         design="4/C10",
-        note="Trusted base: the graph returned by FlowGraph.get_graph() as the dependence relation, networkx.descendants, Hypothesis."),
+        note="Trusted base: the graph returned by FlowGraph.get_graph() as the dependence relation (main part); for the observable part the reference model, dense evaluator and definite-assignment analysis; networkx.descendants, Hypothesis."),
+    "C16": dict(
+        technique="property-based testing (Hypothesis): generated Einsums x partitionings x loop orders x space/time splits x stamp styles x slip x inputs, executed on a reference model with recording canvas stand-ins; oracle = tensors vs the run without spacetime and dense evaluation + invariants over the recorded call history",
+        text="Generated-input search over spacetime mappings of every executable family; the emitted program runs on the reference model "
+             "with stand-ins that record createCanvas/addActivity/displayCanvas: tensors must be unchanged by the spacetime section, exactly "
+             "one canvas is created before and displayed after the loops, one activity follows every in-place update, point arities match "
+             "the displayed tensors, and with level-ordered loops all (space,time) stamps are pairwise distinct.",
+        design="4/C16"),
+    "C19": dict(
+        technique="property-based testing (Hypothesis): generated Einsums x partitionings; differential oracle: text compiled with rank-order / loop-order / partitioning omitted vs the default written out explicitly, the default being computed independently from the specification value",
+        text="Generated-input search over Einsums (plain, partitioned, affine, cascades): the text emitted with a mapping section omitted "
+             "must be identical to the text emitted with the canonical default written out, where the default (declared rank order; output "
+             "ranks then remaining ranks by first appearance with partitioned ranks expanded in place; empty partitioning) is computed "
+             "by vf/defaults.py from the specification value. Two deviations found on the pinned commit were fixed (0d7d132).",
+        design="4/C19",
+        note="Trusted base: vf/defaults.py (the default as worded in the property), Hypothesis."),
 }
 
 NOT_APPLICABLE = {}
